@@ -44,7 +44,10 @@ def run(tier, seed):
         if x["valid"] and x["descr"]:
             recs.append({"t": "same", "a": "axisswap order=" + x["order"], "b": "adapt to=" + x["descr"]})
     for x in r2["records"].get("SHARE", []):
-        recs.append({"t": "same", "a": x["a"], "b": x["b"]})
+        # a unit change is a scaling: only the forward mappings are "the mapping they share"; the two
+        # operators' inverses (divide vs multiply by the reciprocal) need not agree to the last bit,
+        # and adapt's own inverse is pinned by C11 (adapt to=X == adapt inv from=X, bit for bit)
+        recs.append({"t": "same", "a": x["a"], "b": x["b"], "dirs": "F"})
     if len(recs) < 380:
         raise vlib.ToolError("too few shared mappings derived: %d" % len(recs))
     inp = os.path.join(vlib.WORK, "beh", "C14-shared.ndjson")
